@@ -131,6 +131,8 @@ type GenesisSpec struct {
 	Did      []DidGenesisEntry `json:"did,omitempty"`
 	Pnft     *PnftGenesisSpec  `json:"pnft,omitempty"`
 	ExtraDenoms []string       `json:"extra_denoms,omitempty"` // additional bank denoms given to every account
+	DropEmptySections bool     `json:"drop_empty_sections,omitempty"` // leave out app_state sections that are {}
+	LagCounters bool           `json:"lag_counters,omitempty"` // AOL topic record counters lag the records listed (valid for the module, not self-consistent)
 }
 
 type AolGenesisSpec struct {
@@ -204,6 +206,13 @@ func (e *Env) BuildGenesis(a *app.App, gs *GenesisSpec) ([]byte, *Model) {
 	for k, v := range custom {
 		state[k] = v
 	}
+	if gs.DropEmptySections {
+		for k, v := range state {
+			if string(v) == "{}" {
+				delete(state, k)
+			}
+		}
+	}
 	bz, err := json.Marshal(state)
 	if err != nil {
 		panic(err)
@@ -236,7 +245,11 @@ func (e *Env) BuildGenesisModelOnly(gs *GenesisSpec) (map[string]json.RawMessage
 				ts.Records = append(ts.Records, RecordM{Key: mustHex(r.KeyHex), Value: mustHex(r.ValueHex), Ts: r.Ts, Writer: r.Writer})
 				g.Records[fmt.Sprintf("%s/%s/%d", owner.String(), t.Name, i)] = &aoltypes.Record{Key: mustHex(r.KeyHex), Value: mustHex(r.ValueHex), NanoTimestamp: r.Ts, WriterAddress: r.Writer}
 			}
-			g.Topics[owner.String()+"/"+t.Name] = &aoltypes.Topic{Description: t.Desc, TotalRecords: uint64(len(t.Records)), TotalWriters: uint64(len(t.Writers))}
+			nrec := uint64(len(t.Records))
+			if gs.LagCounters && nrec >= 2 {
+				nrec = 0
+			}
+			g.Topics[owner.String()+"/"+t.Name] = &aoltypes.Topic{Description: t.Desc, TotalRecords: nrec, TotalWriters: uint64(len(t.Writers))}
 		}
 		for ok, ts := range m.Aol {
 			g.Owners[sdk.AccAddress([]byte(ok)).String()] = &aoltypes.Owner{TotalTopics: uint64(len(ts))}
